@@ -175,6 +175,7 @@ func checkC04(c C04Case) Outcome {
 		return out
 	case reqv.Different:
 		out.Detail["witness"] = cmp.Witness
+		predUndecided = false
 		if openFinding("D17") && inD17Class(ref, r.Stdout) {
 			out.ExcludedBy = "D17"
 			return out
@@ -186,6 +187,10 @@ func checkC04(c C04Case) Outcome {
 		side := "accepted by the generated regex but not by the documented transformation"
 		if cmp.InA {
 			side = "accepted by the documented transformation but not by the generated regex"
+		}
+		if predUndecided {
+			out.Inconclusive = "known-finding class predicate hit the state cap"
+			return out
 		}
 		out.Violation = fmt.Sprintf("language differs: %q is %s", cmp.Witness, side)
 		return out
